@@ -31,6 +31,7 @@ type Money[Tag any] struct {
 	Cents int32
 }
 type Tags[Tag any] []string
+type MyStr[Tag any] string
 
 // control look-alikes that are never registered
 type OtherInt int64
@@ -39,6 +40,7 @@ type OtherStruct struct {
 	Cents int32
 }
 type OtherTags []string
+type OtherStr string
 
 type moneyRaw struct {
 	Units int64
@@ -49,9 +51,10 @@ const (
 	kInt = iota
 	kMoney
 	kTags
+	kStr
 )
 
-var kindNames = []string{"named-int64", "struct", "named-slice"}
+var kindNames = []string{"named-int64", "struct", "named-slice", "named-string"}
 
 // ---- instrumented custom codec
 
@@ -80,6 +83,8 @@ func render(kind int, builder int, p unsafe.Pointer) string {
 	case kMoney:
 		m := (*moneyRaw)(p)
 		return fmt.Sprintf("%s%d.%d", prefix, m.Units, m.Cents)
+	case kStr:
+		return prefix + "tag:" + *(*string)(p)
 	default:
 		return prefix + strings.Join(*(*[]string)(p), ",")
 	}
@@ -109,6 +114,12 @@ func parse(kind int, builder int, s string, p unsafe.Pointer) error {
 		c, err := strconv.ParseInt(b, 10, 32)
 		m.Units, m.Cents = u, int32(c)
 		return err
+	case kStr:
+		if !strings.HasPrefix(s, "tag:") {
+			return fmt.Errorf("named-string codec got data it did not write: %q", s)
+		}
+		*(*string)(p) = s[4:]
+		return nil
 	default:
 		if s == "" {
 			*(*[]string)(p) = nil
@@ -154,6 +165,8 @@ func (c *customCodec) Omit(p unsafe.Pointer) bool {
 		return *(*int64)(p) == 0
 	case kMoney:
 		return *(*moneyRaw)(p) == moneyRaw{}
+	case kStr:
+		return *(*string)(p) == ""
 	default:
 		return len(*(*[]string)(p)) == 0
 	}
@@ -267,6 +280,8 @@ func valuesOf(t reflect.Type, kind int) []reflect.Value {
 		return mk(int64(0), int64(42), int64(-9000000000))
 	case kMoney:
 		return mk(moneyRaw{}, moneyRaw{12, 34}, moneyRaw{-7, 0})
+	case kStr:
+		return mk("", "b", "héllo wörld")
 	default:
 		return mk([]string(nil), []string{"a"}, []string{"x", "yy", "z"})
 	}
@@ -346,6 +361,8 @@ func kindSchema(kind int, t reflect.Type) *ref.Schema {
 	case kMoney:
 		s, _, _ := spec.SchemaFor(t, spec.Registry{})
 		return s
+	case kStr:
+		return ref.Prim("string")
 	default:
 		return ref.Array(ref.Prim("string"))
 	}
@@ -421,7 +438,8 @@ func use(c *fw.Ctx, t reflect.Type, kind int, pos position, hist string, registe
 	case s.builder != 0:
 		mustBuild = tSchema.Type == "string" || (tSchema.Type == "long" && kind == kInt)
 	default:
-		mustBuild = s.schema == 0 // plain kind mapping
+		// no builder: the built-in kind rules apply to whatever schema is shown; a string schema suits a string kind
+		mustBuild = s.schema == 0 || kind == kStr
 	}
 	if !mustBuild {
 		if err == nil {
@@ -524,6 +542,9 @@ func use(c *fw.Ctx, t reflect.Type, kind int, pos position, hist string, registe
 }
 
 func isZeroCustom(v reflect.Value, kind int) bool {
+	if kind == kStr {
+		return v.Len() == 0
+	}
 	if kind == kTags {
 		return v.Len() == 0
 	}
@@ -563,6 +584,8 @@ func kindTypes(kind int) []reflect.Type {
 		return freshMyInt
 	case kMoney:
 		return freshMoney
+	case kStr:
+		return freshMyStr
 	}
 	return freshTags
 }
@@ -660,7 +683,7 @@ func runControls(c *fw.Ctx) {
 		t    reflect.Type
 		kind int
 		name string
-	}{{reflect.TypeOf(OtherInt(0)), kInt, "OtherInt"}, {reflect.TypeOf(OtherStruct{}), kMoney, "OtherStruct"}, {reflect.TypeOf(OtherTags(nil)), kTags, "OtherTags"}}
+	}{{reflect.TypeOf(OtherInt(0)), kInt, "OtherInt"}, {reflect.TypeOf(OtherStruct{}), kMoney, "OtherStruct"}, {reflect.TypeOf(OtherTags(nil)), kTags, "OtherTags"}, {reflect.TypeOf(OtherStr("")), kStr, "OtherStr"}}
 	for _, x := range ctl {
 		for _, p := range positions() {
 			use(c, x.t, x.kind, p, "control: never registered", false)
@@ -836,7 +859,7 @@ func init() {
 			if tier == "thorough" {
 				d = 4
 			}
-			return fmt.Sprintf("explicit-state exploration of registration histories on the real global registries, model = (current builder ∈ {none,f1,f2}, current schema ∈ {none,s1,s2}) with 'last registration wins', for custom types of three kinds (named int64, struct, named slice) with instrumented codecs (invocation counters; builder f2 marks its wire data so the codec actually used is observable): (a) from the unregistered state every history of length<=3 over {Register(f1),Register(f2)} and over {RegisterSchema(s1),RegisterSchema(s2)}, each on a type nobody registered before (generic named types give 40 fresh types per kind); (b) every history of length<=%d over all four operations with the state carried over; after every operation the type is used at 11 positions {field,*T,**T,[]T,[]*T,map[string]T,map[string]*T,omitempty,struct{X T},[]struct{X T},map[string][]T}: SchemaForType must show the model's schema there, Schema.Codec must consult exactly the model's builder, every occurrence must go through that builder's codec (counters), bytes must decode under the generated schema with the reference decoder, values must round-trip at codec and file level; controls: never-registered look-alike types and the library's own time.Time / null.* registrations at the same positions; distinct_nontrivial counts distinct (type, history, position) uses", d)
+			return fmt.Sprintf("explicit-state exploration of registration histories on the real global registries, model = (current builder ∈ {none,f1,f2}, current schema ∈ {none,s1,s2}) with 'last registration wins', for custom types of four kinds (named int64, struct, named slice, named string) with instrumented codecs (invocation counters; builder f2 marks its wire data so the codec actually used is observable): (a) from the unregistered state every history of length<=3 over {Register(f1),Register(f2)} and over {RegisterSchema(s1),RegisterSchema(s2)}, each on a type nobody registered before (generic named types give 40 fresh types per kind); (b) every history of length<=%d over all four operations with the state carried over; after every operation the type is used at 11 positions {field,*T,**T,[]T,[]*T,map[string]T,map[string]*T,omitempty,struct{X T},[]struct{X T},map[string][]T}: SchemaForType must show the model's schema there, Schema.Codec must consult exactly the model's builder, every occurrence must go through that builder's codec (counters), bytes must decode under the generated schema with the reference decoder, values must round-trip at codec and file level; controls: never-registered look-alike types and the library's own time.Time / null.* registrations at the same positions; distinct_nontrivial counts distinct (type, history, position) uses", d)
 		},
 		Assumptions: []string{
 			"a registration cannot be undone, so model state is carried across histories within a worker; states with an unregistered component are only reachable on fresh types",
@@ -844,13 +867,13 @@ func init() {
 			"the two recorded C01 known findings (pointer to invalid wrapper, pointer to nil pointer) are normalised away here",
 		},
 		Init:     func(c *fw.Ctx) { reg.Init() },
-		NumCases: func(tier string) int { return 4 },
+		NumCases: func(tier string) int { return 5 },
 		RunCase: func(c *fw.Ctx, idx int) {
 			d := 3
 			if c.Tier == "thorough" {
 				d = 4
 			}
-			if idx == 3 {
+			if idx == 4 {
 				runControls(c)
 				c.Count("states", 1)
 				c.Count("transitions", 1)
